@@ -347,11 +347,13 @@ class IG:
         defs = dict((n.id, (n, rhs, how)) for n, rhs, how in self.local_defs(fr, var["id"]))
         out = []
         seen = set()
+        if not hasattr(self, "_live"):
+            self._live = self.reach([self.entry])
         dq = deque(p for p, _ in at_node.pred)
         while dq:
             n = dq.popleft()
-            if n.id in seen:
-                continue
+            if n.id in seen or n.id not in self._live:
+                continue            # dead code (pruned template arm) defines nothing
             seen.add(n.id)
             if n.id in defs:
                 out.append(defs[n.id])
